@@ -100,6 +100,11 @@ def pHist : Parser (List (Iv Nat) × List (Op Nat)) := do
   let init ← many pIv; let ops ← many pOp; pure (init, ops)
 
 def hasMerge (ops : List (Op Nat)) : Bool := ops.any (fun | .merge => true | _ => false)
+
+/-- the largest start plus the longest length does not fit the coordinate type (u64): sums such as
+`start + max_len` overflow in the implementation while the model's naturals do not -/
+def topOfRange (l : List (Iv Nat)) : Bool :=
+  l.foldl (fun m iv => max m iv.start) 0 + l.foldl (fun m iv => max m (iv.stop - iv.start)) 0 ≥ 2 ^ 64
 def insertedOf (ops : List (Op Nat)) : List (Iv Nat) := ops.filterMap (fun | .insert iv => some iv | _ => none)
 
 /-! ## C16 -/
@@ -127,7 +132,8 @@ def handleC16 (inp obs : List String) : Verdict :=
       (if stored.isEmpty then ["empty-set"] else []) ++
       (if stored.any (fun iv => iv.start == iv.stop) then ["zero-length"] else []) ++
       (if hasMerge ops then ["after-merge"] else []) ++
-      (if !(insertedOf ops).isEmpty then ["after-insert"] else [])
+      (if !(insertedOf ops).isEmpty then ["after-insert"] else []) ++
+      (if topOfRange stored then ["top-of-range"] else [])
     match o with
     | none => { kind := "specfail", nontrivial, classes, detail := "implementation panicked" }
     | some o =>
@@ -177,7 +183,8 @@ def handleC17 (inp obs : List String) : Verdict :=
       (if stored.any (fun iv => iv.stop - iv.start ≥ 1000 && stored.countP (fun j => iv.start ≤ j.start && j.stop ≤ iv.stop) ≥ 4) then ["huge-over-small"] else []) ++
       (if stored.isEmpty then ["empty-set"] else []) ++
       (if (ivs.zip (ivs.drop 1)).any (fun (a, b) => a.start == b.start && a.stop < b.stop) then ["equal-starts-growing-stops"] else []) ++
-      (if hasMerge ops then ["after-merge"] else [])
+      (if hasMerge ops then ["after-merge"] else []) ++
+      (if topOfRange stored then ["top-of-range"] else [])
     match o with
     | none => { kind := "specfail", nontrivial, classes, detail := "implementation panicked (seek or find)" }
     | some o =>
